@@ -11,7 +11,7 @@
    counter only feeds the snapshot_id string and is left out. *)
 From W Require Import model.Base model.Utf8 model.Map model.Bincode model.Meta.
 
-Record snapmeta := mkMeta { sm_last : option N; sm_memb : N }.
+Record snapmeta := mkMeta { snm_last : option N; snm_memb : N }.
 
 Record adapter := mkA {
   a_app : mstate;                           (* self.sm : the application state machine *)
@@ -64,8 +64,8 @@ Definition install_snapshot (a : adapter) (snap : snapmeta * list N) : adapter *
   | Some (m, _) =>
     let bytes := enc_smap m in
     match restore (a_app a) bytes with
-    | (app', true) => (mkA app' (sm_last meta) (sm_memb meta) m (Some (meta, data)), true)
-    | (app', false) => (mkA app' (sm_last meta) (sm_memb meta) m (a_cur a), false)
+    | (app', true) => (mkA app' (snm_last meta) (snm_memb meta) m (Some (meta, data)), true)
+    | (app', false) => (mkA app' (snm_last meta) (snm_memb meta) m (a_cur a), false)
     end
   end.
 
